@@ -35,3 +35,9 @@ func (r *R) Pick(ss []string) string { return ss[r.Intn(len(ss))] }
 
 // Fork derives an independent generator (so a case can be replayed alone).
 func (r *R) Fork() *R { return New(r.U64()) }
+
+// Pick9 draws a cache shape 0..8, biased to the pairs with equal parameter counts but
+// different SQL: (1,2)/(2,1) = 5/7, (0,1)/(1,0) = 1/3, (0,2)/(1,1)/(2,0) = 2/4/6.
+func (r *R) Pick9() int {
+	return []int{5, 7, 5, 7, 1, 3, 2, 4, 6, 0, 8, 4}[r.Intn(12)]
+}
